@@ -206,6 +206,14 @@ func (ex *Exec) RunPath(fn *ssa.Function, trail []int) (res *PathResult, newTrai
 				}
 			}
 		}()
+		// package initialisers of the module under test (package-level tables, sentinel errors, user
+		// init functions), in dependency order through the synthetic init's own calls; initialisers of
+		// other modules are skipped (their globals stay zero, as before)
+		if fn.Pkg != nil {
+			if pi := fn.Pkg.Func("init"); pi != nil {
+				ex.call(pi, nil, nil, nil)
+			}
+		}
 		ex.call(fn, nil, nil, nil)
 	}()
 	res.Trail = append([]int(nil), ex.trail[:ex.pos]...)
@@ -716,6 +724,9 @@ func fnKey(fn *ssa.Function) string {
 
 // call runs a function to completion and returns its result (Tuple for multi-value).
 func (ex *Exec) call(fn *ssa.Function, args []Value, fv []Value, site ssa.Instruction) Value {
+	if fn.Synthetic == "package initializer" && (fn.Pkg == nil || !strings.HasPrefix(fn.Pkg.Pkg.Path(), qeepMod)) {
+		return nil
+	}
 	key := fnKey(fn)
 	if in, ok := stdIntrinsics[key]; ok {
 		return in(ex, fn, args, site)
